@@ -87,7 +87,8 @@ def classify(unit, res, path):
         return failures, infra
     vr = j.get('verification-results', {})
     if vr.get('encountered-vir-error') or (vr.get('encountered-error') and not res['diags']):
-        infra.append('verus/rustc error: ' + res['raw_err'][-1500:])
+        if not res['diags']:
+            infra.append('verus/rustc error: ' + res['raw_err'][-1500:])
     for d in res['diags']:
         msg = d.get('message', '')
         if msg.startswith('aborting due to'):
